@@ -134,6 +134,7 @@ func c19(c *core.Ctx) {
 		// data struct fields and their feeding calls
 		var dataFields []string
 		feed := map[string]string{}
+		realToCanon := map[string]string{}
 		core.Instrs(gen, func(in ssa.Instruction) {
 			al, ok := in.(*ssa.Alloc)
 			if !ok {
@@ -145,7 +146,7 @@ func c19(c *core.Ctx) {
 			}
 			hasSI := false
 			for i := 0; i < st.NumFields(); i++ {
-				if st.Field(i).Name() == "StreamIndex" {
+				if core.FieldName(st, i) == "StreamIndex" {
 					hasSI = true
 				}
 			}
@@ -153,8 +154,10 @@ func c19(c *core.Ctx) {
 				return
 			}
 			dataFields = nil
+			realToCanon = map[string]string{}
 			for i := 0; i < st.NumFields(); i++ {
 				dataFields = append(dataFields, st.Field(i).Name())
+				realToCanon[st.Field(i).Name()] = core.FieldName(st, i)
 			}
 			for _, r := range core.Refs(al) {
 				fa, ok := r.(*ssa.FieldAddr)
@@ -245,6 +248,13 @@ func c19(c *core.Ctx) {
 			_, perr := parser.ParseFile(token.NewFileSet(), "t.go", "package p\nfunc _() {\n"+goText+"\n}", 0)
 			c.Check(perr == nil, key+":valid-go", mt.Pos(), "with actions replaced by identifiers the template is a valid Go statement list", fmt.Sprintf("the template body is not valid Go: %v", perr))
 			norm := strings.Join(strings.Fields(text), " ")
+			// the templates name the data struct's fields: compare in canonical (role) names
+			for real, canon := range realToCanon {
+				if real != canon {
+					norm = strings.ReplaceAll(norm, "{{."+real+"}}", "{{.\x00"+canon+"}}")
+				}
+			}
+			norm = strings.ReplaceAll(norm, "{{.\x00", "{{.")
 			pathLit := `"/{{.ServiceName}}/{{.MethodName}}"`
 			c.Check(strings.Contains(norm, pathLit), key+":path", mt.Pos(), "uses the path "+pathLit, "the stub does not call the channel with the path "+pathLit)
 			switch br {
@@ -317,7 +327,14 @@ func c19(c *core.Ctx) {
 		var pa *ssa.Function
 		for _, fn := range p.LibFuncs(genPkg) {
 			if fn.Parent() == nil && len(fn.Params) == 1 && core.TypeStr(fn.Params[0].Type()) == "[]string" && fn.Signature.Results().Len() == 2 {
-				pa = fn
+				// the option parser returns the options struct (a struct with the import map), not a scalar
+				if st, ok := fn.Signature.Results().At(0).Type().Underlying().(*types.Struct); ok {
+					for i := 0; i < st.NumFields(); i++ {
+						if _, isMap := st.Field(i).Type().Underlying().(*types.Map); isMap {
+							pa = fn
+						}
+					}
+				}
 			}
 		}
 		if pa == nil {
